@@ -1,0 +1,59 @@
+//go:build verif
+
+// Contracts for link reference definitions (C12).  Comments only; see
+// contracts_verif.go for the conventions.
+
+package commonmark
+
+// ---------------------------------------------------------------------------
+// The reference map.  haskey(m,k) / mapget(m,k) read the map; a string key is
+// its contents.
+// ---------------------------------------------------------------------------
+
+//@ func ReferenceMap.MatchReference
+//@   ensures[present] result <==> haskey(m, normalizedLabel)
+//@   serves C12, C04
+
+//@ -- Extract never replaces an existing definition (first definition wins), never stores the empty label, and
+//@ -- stores under the label node's normalised reference the texts of the destination and title children
+//@ func ReferenceMap.Extract
+//@   requires m != nil
+//@   modifies everything
+//@   havoccall (*Inline).Text, (*Inline).LinkReference
+//@   site mapupdate: requires[map] $map == m
+//@   site mapupdate: requires[first] !haskey(m, $key)
+//@   site mapupdate: requires[nonempty] len($key) > 0
+//@   site mapupdate: requires[label] seqvalof($key) == seqvalof(label)
+//@   loop 0: invariant[m] m != nil && fresh(stack)
+//@   loop 1: invariant[m] m != nil && fresh(stack) && !isnil(block) && i < (len(block.blockChildren) > 0 ? len(block.blockChildren) : len(block.inlineChildren))
+//@   loop 1: decreases i + 1
+//@   nosafety index a link reference definition has a label and a destination child (node grammar, C05; assumption A-NODEINV)
+//@   nosafety nil the nodes of a parsed tree are never nil (assumption A-NODEINV, C05)
+//@   unclaimed dec:0 termination of the traversal relies on the tree being finite and acyclic (DESIGN 4.3)
+//@   serves C12
+
+// ---------------------------------------------------------------------------
+// Label normalisation (CommonMark 0.30, "matches"): collapse consecutive
+// internal spaces, tabs and line endings to one space, strip leading and
+// trailing spaces, tabs and line endings, perform the Unicode case fold.  After
+// the collapse the only such character left is ' ', so the strip is of ' '
+// only; other Unicode whitespace (e.g. U+00A0) is part of the label.  The
+// value returned is the case fold of the stripped text, for every label.
+// ---------------------------------------------------------------------------
+
+//@ func transformLinkReferenceSpan
+//@   modifies everything
+//@   havoccall (*inlineByteReader).current, (*inlineByteReader).next
+//@   ghost folds = 0
+//@   ghost folded = 0
+//@   ghost trimmed = 0
+//@   callsite strings.TrimSpace: requires[spaces-only] false
+//@   callsite strings.Trim: requires[cutset] lit($1, " ")
+//@   callsite strings.Trim: ghost trimmed = 1
+//@   callsite (golang.org/x/text/cases.Caser).String: requires[once] folds == 0 && trimmed == 1
+//@   callsite (golang.org/x/text/cases.Caser).String: ghost folded = seqvalof($result)
+//@   callsite (golang.org/x/text/cases.Caser).String: ghost folds = folds + 1
+//@   ensures[fold] folds == 1 && seqvalof(result) == folded
+//@   nosafety nil the unparsed nodes of a block are never nil (assumption A-NODEINV, C05)
+//@   unclaimed dec the reader's progress is not under contract here
+//@   serves C12
